@@ -59,6 +59,10 @@ pub fn classify<S: Scheme>(sess: &Session<S>, ctx: &mut CaseCtx) -> bool {
             }
             "sparse" | "one_hot" => ctx.label("sparse_poly"),
             "max_degree" => ctx.label("max_degree_poly"),
+            "vanishes_at_first_point" => {
+                ctx.label("poly_vanishing_at_a_queried_point");
+                nt = true;
+            }
             _ => {}
         }
     }
